@@ -163,16 +163,29 @@ class PyReader:
                     env[p] = self.ev(d_, {}, {})
         if a.kwarg:
             env[a.kwarg.arg] = {k: v for k, v in (kwargs or {}).items() if k not in params and k not in [x.arg for x in a.kwonlyargs]}
+        is_gen = any(isinstance(x, (ast.Yield, ast.YieldFrom)) for st in fn.body for x in self._walk_same_scope(st))
+        if is_gen:
+            env["__yield__"] = []  # a generator function is evaluated eagerly: the sequence of values it would yield
         self.depth += 1
         try:
             fns = dict(local_fns or {})
             try:
                 self.block(fn.body, env, fns)
             except _Return as r:
-                return r.value
-            return None
+                return env["__yield__"] if is_gen else r.value
+            return env["__yield__"] if is_gen else None
         finally:
             self.depth -= 1
+
+    @staticmethod
+    def _walk_same_scope(node):
+        stack = [node]
+        while stack:
+            x = stack.pop()
+            yield x
+            for ch in ast.iter_child_nodes(x):
+                if not isinstance(ch, (ast.FunctionDef, ast.AsyncFunctionDef, ast.Lambda, ast.ClassDef)):
+                    stack.append(ch)
 
     # ------------------------------------------------------------------ statements
     def block(self, body: list, env: dict, fns: dict) -> None:
@@ -193,6 +206,15 @@ class PyReader:
                     lst.insert(vals[0], vals[1])
                 else:
                     self.fail(s, "list method arguments")
+                continue
+            if isinstance(s, ast.Expr) and isinstance(s.value, ast.Yield) and "__yield__" in env:
+                env["__yield__"].append(self.ev(s.value.value, env, fns) if s.value.value is not None else None)
+                continue
+            if isinstance(s, ast.Expr) and isinstance(s.value, ast.YieldFrom) and "__yield__" in env:
+                seq = self.ev(s.value.value, env, fns)
+                if not isinstance(seq, list):
+                    self.fail(s, "yield from a non-concrete iterable")
+                env["__yield__"].extend(seq)
                 continue
             if isinstance(s, ast.Expr) and isinstance(s.value, ast.Call):
                 self.ev(s.value, env, fns)  # evaluated for its effects (raises); the value is dropped
@@ -301,6 +323,22 @@ class PyReader:
     def assign(self, t: ast.AST, v, env: dict, node: ast.AST) -> None:
         if isinstance(t, ast.Name):
             env[t.id] = v
+        elif isinstance(t, (ast.Tuple, ast.List)) and any(isinstance(e, ast.Starred) for e in t.elts):
+            if not isinstance(v, (list, tuple)) or sum(isinstance(e, ast.Starred) for e in t.elts) != 1:
+                self.fail(node, "starred destructuring")
+            k = next(i for i, e in enumerate(t.elts) if isinstance(e, ast.Starred))
+            after = len(t.elts) - k - 1
+            if len(v) < len(t.elts) - 1:
+                raise Raised("ValueError", getattr(node, "lineno", 0))
+            for e, x in zip(t.elts[:k], v[:k]):
+                self.assign(e, x, env, node)
+            self.assign(t.elts[k].value, list(v[k:len(v) - after]), env, node)
+            for e, x in zip(t.elts[k + 1:], v[len(v) - after:] if after else []):
+                self.assign(e, x, env, node)
+        elif isinstance(t, ast.Attribute):
+            base = self.ev(t.value, env, {})
+            if not self.store_attr(base, t.attr, v, node):
+                self.fail(node, "attribute store")
         elif isinstance(t, (ast.Tuple, ast.List)):
             if not isinstance(v, (list, tuple)):
                 self.fail(node, f"cannot destructure a {type(v).__name__} into {len(t.elts)} names")
@@ -604,6 +642,10 @@ class PyReader:
     def hook_binop(self, o: ast.operator, l, r, n: ast.AST):
         """hook for arithmetic on rule-specific objects; NotImplemented = ordinary arithmetic"""
         return NotImplemented
+
+    def store_attr(self, base, attr: str, value, n: ast.AST) -> bool:
+        """hook: `base.attr = value` on a rule-specific object; False = not supported"""
+        return False
 
     def hook_compare(self, o: ast.cmpop, l, r, n: ast.AST):
         """hook for comparisons of rule-specific objects; NotImplemented = ordinary comparison"""
